@@ -90,7 +90,10 @@ func (pass *FlattenDisjunctions) flattenDisjunction(schema *ast.Schema, disjunct
 
 		resolved, found := schema.Resolve(branch)
 		if !found {
-			// FIXME: error here?
+			// the reference can't be resolved (other package, unknown object):
+			// the branch is kept as it is. Dropping it could leave an empty
+			// disjunction behind.
+			addBranch(typeName, branch)
 			continue
 		}
 
